@@ -220,6 +220,7 @@ Proof.
   all: try (rewrite Heof in *; cbn [negb orb andb] in *; discriminate).
   all: unfold Inv; cbn [m_state m_eof m_ptr m_buf m_url mk]; (split; [exact Heof|]).
   all: try exact I.
+  all: try (destruct HI as [HI HIs]).
   all: frame_hosts.
   all: rewrite ?cdp_path.
   all: cbn_url.
@@ -227,7 +228,7 @@ Proof.
   all: try (split; assumption).
   all: try (intros Hsp; split;
       [ first [ assumption | constructor
-              | apply segs_ok_shorten, Hbase; assumption
+              | apply segs_ok_shorten, Hbase; first [assumption | reflexivity]
               | apply segs_ok_app; [assumption|];
                 match goal with Hn : _ && isNormalizedWindowsDriveLetter ?s = true |- _ =>
                   apply andb_true_iff in Hn as [_ Hn]; apply normalized_nonempty, Hn end ]
@@ -241,6 +242,43 @@ Proof.
         rewrite ?Hsp in *; try rewrite HI in *;
         destruct (r =? 47) eqn:E47; destruct (r =? 92) eqn:E92; cbn [andb orb negb] in *;
         try discriminate; try congruence; try reflexivity ]).
-  all: match goal with |- ?G => idtac G end.
-  Show.
-Abort.
+Qed.
+
+(* the end of a segment, terminated by a separator *)
+Lemma seg_leaf c' inp p0 U buf SL :
+  no_adjacent_sl inp -> segs_ok (u_path U) ->
+  (buf = [] -> sl (cp_at inp (p0 + 1)) = true -> sl (cp_at inp p0) = true) ->
+  SL = true -> sl (cp_at inp (p0 + 1)) = true ->
+  segs_ok (u_path (seg_end c' U buf SL)) /  (@nil N = [] -> sl (cp_at inp (p0 + 1 + 1)) = true -> sl (cp_at inp (p0 + 1)) = true).
+Proof.
+  intros Hadj P Hbuf -> Hr. split; [|intros _ _; exact Hr].
+  apply seg_end_slash; [exact P|]. intros Hb. exact (Hadj p0 (Hbuf Hb Hr) Hr).
+Qed.
+
+Lemma Inv_step_PathSt idna_raw c b inp base ov m m' :
+  no_adjacent_sl inp -> m_state m = PathSt ->
+  Inv c inp m -> step idna_raw (with_collapse c b) inp base ov m = Cont m' -> m_eof m' = false -> Inv c inp m'.
+Proof.
+  intros Hadj Hst [He0 HI] H Heof. rewrite (step_PathSt _ _ _ _ _ _ Hst) in H.
+  destruct m as [st p0 e0 buf atF brF pwF u]. cbn [m_state m_ptr m_eof m_buf m_at m_br m_pw m_url] in *.
+  subst st e0.
+  unfold step_path, unit_checks, mherr, handleError in H. cbn [m_state m_ptr m_eof m_buf m_at m_br m_pw m_url] in H.
+  rewrite !r_cp in H. cbn [orb] in H.
+  set (p := (p0 + 1)%Z) in *.
+  set (r := cp_at inp p) in *.
+  set (eof := if (n_inp inp <=? p)%Z then true else false) in *.
+  step_crush H.
+  all: injection H as <-.
+  all: cbn [m_eof mk] in Heof.
+  all: unfold Inv; cbn [m_state m_eof m_ptr m_buf m_url mk]; (split; [exact Heof|]).
+  all: try exact I.
+  all: intros Hsp; unfold IsSpecialScheme in Hsp; rewrite ?seg_end_scheme in Hsp; cbn [u_scheme set_verrs] in Hsp.
+  all: specialize (HI Hsp); destruct HI as [P Hbuf].
+  all: try (split; [exact P|]; intros Hb; exfalso; revert Hb; apply app_nonempty_r;
+            first [apply per_nonempty | apply peir_nonempty]).
+  all: assert (SL : (r =? 47) || isSpecialSchemeAndBackslash (with_collapse c b) u r = true)
+         by (rewrite Heof in *; destruct (r =? 47); [reflexivity|]; cbn [orb andb] in *;
+             first [ assumption
+                   | match goal with Hc : _ = true |- _ => rewrite ?andb_false_r in Hc; discriminate Hc end ]).
+  all: apply seg_leaf; [exact Hadj|exact P|exact Hbuf|exact SL|exact (slashlike_sl _ _ _ SL)].
+Qed.
